@@ -24,13 +24,18 @@ import random
 from collections import Counter
 from typing import Any
 
-from .. import cachehist, core, fresh
+import os
+
+from .. import cachehist, core, fresh, shared_inventory
 from . import c11
 
 MODULES = ["ESV.Props.C12"]
 THEOREMS = ["ESV.C12.interleave_safe", "ESV.C12.interleave_safe_start", "ESV.C12.interleave_no_keyerror",
-            "ESV.C12.interleave_sequential", "ESV.C12.interleave_sequential_finished", "ESV.C12.interleave_stale_counterexample"]
+            "ESV.C12.interleave_sequential", "ESV.C12.interleave_sequential_finished", "ESV.C12.interleave_stale_counterexample",
+            "ESV.C12.shared_inventory_pinned"]
 THREADS = "harness.impl_cache:run_threads"
+COMPILE_THREADS = "harness.impl_cache:run_compile_threads"
+SHARED_LEAN = os.path.join(core.LEAN, "ESV", "Gen", "Shared.lean")
 
 
 def gen_threads(r: random.Random, pools: c11.Pools, n_threads: int, max_calls: int, flavour: str) -> list[list[dict]]:
@@ -92,6 +97,84 @@ def gen_case(r: random.Random, pools: c11.Pools, i: int, sched: bool) -> dict:
             "warm": r.random() < 0.5, "budget_s": 150, "instrument": False, "flavour": flavour}
 
 
+def write_shared(items: list[str]) -> bool:
+    src = shared_inventory.lean_source(items)
+    old = open(SHARED_LEAN).read() if os.path.exists(SHARED_LEAN) else None
+    if old != src:
+        with core._Lock():
+            with open(SHARED_LEAN, "w") as fh:
+                fh.write(src)
+        return True
+    return False
+
+
+def deep_text(r: random.Random, depth: int, tag: int) -> str:
+    """a valid script whose blocks nest `depth` deep (ifs, whiles, fors, switch cases mixed)"""
+    open_, close = [], []
+    for d in range(depth):
+        k = r.random()
+        ind = " " * (d + 1)
+        if k < 0.6:
+            open_.append(f"{ind}if ($SCENARIO_MAIN == {d}) {{\n{ind} deep_{tag}({d});\n")
+            close.append(f"{ind}}}\n")
+        elif k < 0.75:
+            open_.append(f"{ind}while ($X < {d}) {{\n")
+            close.append(f"{ind}}}\n")
+        elif k < 0.9:
+            open_.append(f"{ind}switch ($Y) {{\n{ind}case {d}:\n")
+            close.append(f"{ind}}}\n")
+        else:
+            open_.append(f"{ind}if not (debug) {{\n{ind} a();\n{ind}}} else {{\n")
+            close.append(f"{ind}}}\n")
+    return "def 0 {\n" + "".join(open_) + " " * (depth + 1) + f"bottom_{tag}();\n" + "".join(reversed(close)) + "    end;\n}\n"
+
+
+def small_text(n: int) -> str:
+    body = ""
+    for k in range(2 + n % 3):
+        body += f"    if ($L{k} == {n}) {{\n        s_{n}_a({k});\n    }} else {{\n        s_{n}_b({k}, 'text {n}');\n    }}\n"
+    body += f"    switch ($EVENT_LOCAL) {{\n        case {n}:\n            c_{n}();\n            break;\n        default:\n            d_{n}();\n            break;\n    }}\n"
+    return f"macro m{n}($x) {{\n    in_macro_{n}($x);\n}}\ndef 0 {{\n{body}    ~m{n}({n});\n    end;\n}}\ncoro CORO_{n} {{\n    hold;\n}}\n"
+
+
+def gen_deep_case(r: random.Random, i: int) -> dict:
+    """compiler-only process at the interpreter's default recursion limit: 2-3 threads compile scripts nested 130-200 deep (and some
+    moderately nested ones), 2 threads keep compiling small scripts meanwhile (save/modify/restore of an interpreter-wide setting by
+    one call would be undone under another call's feet)"""
+    threads = []
+    for t in range(r.choice([2, 3])):
+        calls = [{"kind": "compile", "text": deep_text(r, r.randint(130, 200), 10 * i + t), "lookup": []}]
+        if r.random() < 0.5:
+            calls.append({"kind": "compile", "text": deep_text(r, r.randint(30, 70), 10 * i + t + 5), "lookup": []})
+        threads.append({"calls": calls, "loop": False})
+    for t in range(2):
+        threads.append({"calls": [{"kind": "compile", "text": small_text(3 * i + t), "lookup": []}], "loop": True})
+    return {"threads": threads, "recursion_limit": 1000, "switchinterval": r.choice([1e-6, 1e-6, 1e-5]), "pause_ms": r.choice([0, 1, 2, 5]),
+            "repeat": r.choice([2, 3, 5]), "budget_s": 120, "mode": "compiler_only"}
+
+
+def check_deep(case: dict, out: dict, refs_co: dict) -> list[dict]:
+    diffs = []
+    for ti, (sp, rows) in enumerate(zip(case["threads"], out["results"])):
+        calls = sp["calls"]
+        for ri, row in enumerate(rows):
+            call = calls[ri % len(calls)]
+            ref = refs_co.get(c11.spec_key(call))
+            if ref is None or ref.get("no_answer"):
+                continue
+            if row["digest"] != ref["digest"]:
+                kind, what = classify(call, row, ref)
+                diffs.append({"thread": ti, "index": ri % len(calls), "kind": kind + "_compiler_only_process",
+                              "what": what + " [process that imports only the compiler, interpreter's default recursion limit; compared with the call alone in such a process]", "against": "alone"})
+                break
+    pb, pa = out.get("process_before", {}), out.get("process_after", {})
+    for k in ("recursion_limit", "cwd", "decompiler_imported"):
+        if pb.get(k) != pa.get(k):
+            diffs.append({"thread": -1, "index": 0, "kind": "process_setting_changed_after_concurrent_calls",
+                          "what": f"after the concurrent compile() calls the process-wide {k} is {pa.get(k)!r}, it was {pb.get(k)!r}", "against": "-"})
+    return diffs
+
+
 def classify(call: dict, got: dict, exp: dict) -> tuple[str, str]:
     gs, es = got["summary"], exp["summary"]
     if gs.get("error") == "ParseError" == es.get("error") and gs.get("site") == es.get("site") and gs.get("msg") != es.get("msg"):
@@ -135,10 +218,39 @@ def run(run: core.Run) -> int:
     n_sched, n_free, n_instr, n_prog = (20, 20, 6, 24) if quick else (500, 400, 60, 100)
     jobs = core.jobs_for(run.tier)
     stamp0 = fresh.tree_stamp()
+    inv = shared_inventory.inventory(core.REPO)
+    write_shared(inv)
     prep = core.lean_prepare(MODULES)
     aud = core.audit(THEOREMS, MODULES) if prep["proofs_ok"] else {"obligations": len(THEOREMS), "discharged": 0, "ok": False, "theorems": {}}
     drv = core.Driver() if prep["driver_ok"] else None
+    pinned: list[str] = []
+    inv_new: list[str] = []
+    inv_gone: list[str] = []
+    if drv is not None:
+        rep = drv.batch([{"op": "cache.shared"}])[0]
+        pinned = [x[0] for x in rep.get("shared", [])]
+        inv_new = [x for x in inv if x not in pinned]
+        inv_gone = [x for x in pinned if x not in inv]
+        if inv_new or inv_gone:
+            run.broken_tie("static inventory C12: the writes to process-wide state in the current source differ from the list the thread model is built over "
+                           f"(lean/ESV/Cache/Shared.lean): new {inv_new}, no longer present {inv_gone}", {"new": inv_new, "gone": inv_gone})
+    setting_like = any(x.startswith(("call|", "global|", "class-write|")) for x in inv_new)
+    object_like = any(x.startswith(("module-object|", "class-object|", "antlr|")) for x in inv_new)
+    n_deep = (4 if quick else 40) + (14 if setting_like else 0)
+    if object_like:          # targeted search: more schedules in which the threads' graphs / parsers meet
+        n_sched += 14
+        n_free += 10
     pools, refs, stats = c11.build_pools(run, jobs, n_prog)
+    # compiler-only scenario: deep inputs next to small ones
+    deep_cases = [gen_deep_case(run.rng, i) for i in range(n_deep)]
+    co_calls = {c11.spec_key(c): c for dc in deep_cases for sp in dc["threads"] for c in sp["calls"]}
+    co_keys = list(co_calls)
+    co_res = fresh.run_fresh_many([(c11.SESSION, {"calls": [co_calls[k]], "compiler_only": True, "recursion_limit": 1000}) for k in co_keys], jobs, timeout=120)
+    refs_co = {k: (x["results"][0] if not fresh.failed(x) and "results" in x else {"no_answer": True}) for k, x in zip(co_keys, co_res)}
+    for k, x in zip(co_keys, co_res):
+        if not fresh.failed(x) and x.get("process", {}).get("decompiler_imported"):
+            raise core.Infra("the compiler-only reference process has the decompiler imported: the scenario no longer tests what it is meant to")
+    deep_outs = fresh.run_fresh_many([(COMPILE_THREADS, {k: v for k, v in dc.items() if k != "mode"}) for dc in deep_cases], max(2, jobs // 2), timeout=200)
     cases = [gen_case(run.rng, pools, i, True) for i in range(n_sched)] + [gen_case(run.rng, pools, i, False) for i in range(n_free)]
     instr = []
     for i in range(n_instr):
@@ -215,11 +327,56 @@ def run(run: core.Run) -> int:
                 tv["oracle_" + k] += v
             if sr["counts"].get("stale_from_dead_graph"):
                 run.violation("stale_memo_entry_seen_by_concurrent_convert", "a concurrent convert() was answered from the memo entry of another (dead) graph", {"examples": sr["examples"], "threads": c["threads"]})
+    deep_stats: Counter = Counter()
+    for dc, o in zip(deep_cases, deep_outs):
+        if fresh.failed(o) or o.get("broken") or any(o.get("errors") or []):
+            o = fresh.run_fresh(COMPILE_THREADS, {k: v for k, v in dc.items() if k != "mode"}, timeout=300)
+            if fresh.failed(o) or o.get("broken") or any(o.get("errors") or []):
+                infra += 1
+                run.notes.append("compiler-only run without verdict: " + json.dumps(o)[:200])
+                continue
+        deep_stats["runs"] += 1
+        deep_stats["calls"] += sum(len(t) for t in o["results"])
+        deep_stats["decompiler_imported"] += bool(o["process_before"].get("decompiler_imported"))
+        for t in o["results"]:
+            for row in t:
+                deep_stats["outcome:" + (row["summary"].get("error") or "ok")] += 1
+        for d in check_deep(dc, o, refs_co):
+            st["differences"] += 1
+            per_kind[d["kind"]] += 1
+            sig = d["kind"] + "|" + str(min(per_kind[d["kind"]], 2))
+            if sig not in found and len(found) < 30:
+                found[sig] = {"case": dc, "out": o, "diff": d}
+    if deep_stats["decompiler_imported"]:
+        raise core.Infra("the compiler-only scenario ran in a process that had imported the decompiler")
     if infra > max(2, len(cases) // 10):
         raise core.Infra(f"{infra} of {len(cases)} concurrent runs gave no verdict (scheduler time-outs / worker deaths): {run.notes[:3]}")
 
     for sig, f in found.items():
         c, d = f["case"], f["diff"]
+        if c["mode"] == "compiler_only":
+            replay_arg = {k: v for k, v in c.items() if k != "mode"}
+            # shrink: the thread of the differing call with its one call, and one looping thread
+            if d["thread"] >= 0:
+                small = dict(replay_arg, threads=[{"calls": [c["threads"][d["thread"]]["calls"][d["index"]]], "loop": False}] + [sp for sp in c["threads"] if sp.get("loop")][:1],
+                             repeat=max(3, c.get("repeat", 2)))
+                for _ in range(3):
+                    o2 = fresh.run_fresh(COMPILE_THREADS, small, timeout=300)
+                    if not fresh.failed(o2) and any(x["kind"] == d["kind"] for x in check_deep(dict(small, mode="compiler_only"), o2, refs_co)):
+                        replay_arg, c = small, dict(small, mode="compiler_only")
+                        d = dict(d, thread=0, index=0)
+                        break
+            again, tries = 0, 3
+            for _ in range(tries):
+                o2 = fresh.run_fresh(COMPILE_THREADS, replay_arg, timeout=300)
+                if not fresh.failed(o2) and any(x["kind"] == d["kind"] for x in check_deep(c, o2, refs_co)):
+                    again += 1
+            st["kind:" + d["kind"]] += 1
+            run.violation(d["kind"], d["what"] + f" (seen again in {again} of {tries} re-runs)",
+                          {"compile_threads": replay_arg, "difference": d,
+                           "observed_call": c["threads"][d["thread"]]["calls"][d["index"]] if d["thread"] >= 0 else None,
+                           "how_to_replay": "./check C12 --replay <this file>: runs `compile_threads` in a fresh compiler-only process and compares every call with the same call alone in such a process"})
+            continue
         replay_arg = strip(dict(c, switches=f["out"].get("switches"))) if c["mode"] == "sched" else strip(c)
         # does it show again? (same schedule for (a); for (b) the same threads a few more times)
         again = 0
@@ -237,6 +394,8 @@ def run(run: core.Run) -> int:
     if not prep["proofs_ok"] or not aud["ok"] or drv is None:
         run.broken_tie("Lean obligations of C12 do not check (build/audit)", {"theorems": THEOREMS, "log": prep["log"][-3000:], "audit": aud})
     c11.cleanup_projects()
+    if (inv_new or inv_gone) and pinned:
+        write_shared(pinned)
     sample = [{"mode": c["mode"], "threads": [[x["kind"] for x in t] for t in c["threads"]], **{k: c[k] for k in ("seed", "p_switch", "warm", "antlr", "switchinterval") if k in c}} for c in cases[:2] + cases[n_sched:n_sched + 1]]
     cov = core.proof_coverage(run, prep, aud, MODULES, THEOREMS, {
         "explanation": "Kernel-checked theorem: under every interleaving of the locked sections of graph_utils' cache functions, threads that own their graphs and follow the clear "
@@ -250,7 +409,8 @@ def run(run: core.Run) -> int:
                 "half of the runs first compute the sequential results in the same process; evaluations = calls compared; non-trivial = distinct (threads, schedule seed) cases",
         "samples": sample, "stats": dict(st), "runs_without_verdict": infra,
         "traces_validated_against_impl": int(tv["runs_replayed"]), "trace_validation": dict(tv),
-        "reference_stats": dict(stats),
+        "reference_stats": dict(stats), "compiler_only_scenario": dict(deep_stats),
+        "shared_state_inventory": {"entries": len(inv), "new": inv_new, "gone": inv_gone},
     })
     return run.finish("other", cov, [
         "CPython's GIL: a thread switch happens between bytecodes; switches inside C extension calls (igraph) are not controlled by the scheduler (a)",
@@ -262,6 +422,21 @@ def run(run: core.Run) -> int:
 
 def replay(run: core.Run, path: str) -> int:
     data = json.load(open(path))
+    if "compile_threads" in data["replay"]:
+        arg = data["replay"]["compile_threads"]
+        o = fresh.run_fresh(COMPILE_THREADS, arg, timeout=300)
+        if fresh.failed(o) or o.get("broken"):
+            print("REPLAY: no verdict", json.dumps(o)[:300])
+            return 2
+        refs_co = {}
+        for sp in arg["threads"]:
+            for c in sp["calls"]:
+                x = fresh.run_fresh(c11.SESSION, {"calls": [c], "compiler_only": True, "recursion_limit": arg.get("recursion_limit", 1000)}, timeout=120)
+                refs_co[c11.spec_key(c)] = x["results"][0] if not fresh.failed(x) else {"no_answer": True}
+        diffs = check_deep(dict(arg, mode="compiler_only"), o, refs_co)
+        for d in diffs:
+            print("VIOLATION-REPLAY", d["kind"], d["what"][:300])
+        return 1 if diffs else 0
     arg = data["replay"]["run"]
     o = fresh.run_fresh(THREADS, arg, timeout=300)
     if fresh.failed(o) or o.get("broken"):
